@@ -1,6 +1,7 @@
 """C10 Five mode stream objects equal NIST SP 800-38A; decryptors invert encryptors."""
 from . import mode_rules, aes_rules
 LEVEL = 'proof'
+RULES = ('R10.s', 'R10.d', 'R10.i', 'R10.v', 'R10.c', 'R03.c', 'R09.k')
 
 
 def run(prog, rec, tier):
